@@ -171,10 +171,12 @@ func (d *SDef) describe(F []string) IntroD {
 	reach := d.reachable()
 	visible := func(n string) bool { return reach[n] && subset(d.featOf(n), F) }
 	out := IntroD{QueryType: NameD{d.Query}, Types: []TypeD{}, Directives: []DirectiveD{}}
-	if d.Mutation != "" {
+	// a mutation / subscription root type whose required features the request does not have is
+	// treated as absent (fix C13/04)
+	if d.Mutation != "" && subset(d.featOf(d.Mutation), F) {
 		out.MutationType = &NameD{d.Mutation}
 	}
-	if d.Subscription != "" {
+	if d.Subscription != "" && subset(d.featOf(d.Subscription), F) {
 		out.SubscriptionType = &NameD{d.Subscription}
 	}
 	var names []string
